@@ -429,3 +429,61 @@ Example mask_needs_wellformed :
   mask (s """ 'abc'") = Some (s """ ""0""", [s "'abc'"]) /\
   unmask_in (fun x => x) [s "'abc'"] (s """ ""0""") = None.
 Proof. vm_compute. auto. Qed.
+
+(* ---------- the project option `lower`: the statement is lower-cased after masking ---------- *)
+
+Definition lower_segs (segs : list seg) : list seg :=
+  map (fun sg => match sg with (c, q, b) => (lower c, q, b) end) segs.
+
+Lemma lower_app a b : lower (a ++ b) = lower a ++ lower b.
+Proof. apply map_app. Qed.
+
+Lemma is_quote_lower_ch c : is_quote (lower_ch c) = is_quote c.
+Proof. destruct c as [[] [] [] [] [] [] [] []]; reflexivity. Qed.
+
+Lemma no_quote_lower x : no_quote (lower x) = no_quote x.
+Proof. induction x as [|c x IH]; simpl; [reflexivity|]. now rewrite is_quote_lower_ch, IH. Qed.
+
+Lemma uint_lower d : lower (s (NilEmpty.string_of_uint d)) = s (NilEmpty.string_of_uint d).
+Proof. induction d; simpl; [reflexivity | unfold lower in *; simpl; now rewrite IHd ..]. Qed.
+
+Lemma placeholder_lower k : lower (placeholder k) = placeholder k.
+Proof.
+  rewrite placeholder_unfold, !lower_app. unfold dec. rewrite uint_lower. reflexivity.
+Qed.
+
+Lemma render_masked_lower : forall segs tail k,
+  lower (render_masked k segs tail) = render_masked k (lower_segs segs) (lower tail).
+Proof.
+  induction segs as [|[[c q] b] r IH]; intros tail k; [reflexivity|].
+  change (render_masked k ((c, q, b) :: r) tail) with (c ++ placeholder k ++ render_masked (S k) r tail).
+  rewrite !lower_app, placeholder_lower, IH. reflexivity.
+Qed.
+
+Lemma lits_lower segs : lits (lower_segs segs) = lits segs.
+Proof. induction segs as [|[[c q] b] r IH]; simpl; [reflexivity|]. now rewrite IH. Qed.
+
+Lemma wf_segs_lower first segs : wf_segs first (lower_segs segs) = wf_segs first segs.
+Proof.
+  revert first. induction segs as [|[[c q] b] r IH]; intros first; [reflexivity|].
+  simpl. rewrite no_quote_lower, IH. destruct c; reflexivity.
+Qed.
+
+(* whatever `lower` says, the literals are put back exactly as they were written; only the code
+   around them is lower-cased *)
+Theorem lower_keeps_literals : forall prep segs tail,
+  keeps_literals prep -> wf_line segs tail = true ->
+  unmask_in prep (lits segs) (lower (render_masked 0 segs tail))
+  = Some (render_with prep (lower_segs segs) (lower tail)).
+Proof.
+  intros prep segs tail K W. rewrite render_masked_lower.
+  apply unmask_any_code; auto using lits_lower.
+  unfold wf_line in *. now rewrite wf_segs_lower, no_quote_lower.
+Qed.
+
+Example lower_keeps_literals_nonvacuous :
+  let segs := [(s "CHARACTER(LEN=*), PARAMETER :: V = ", dq, s "Hello  World"); (s " // TRIM(", sq, s "It's")] in
+  wf_line segs (s ")") = true /\
+  render_with (fun x => x) (lower_segs segs) (lower (s ")"))
+    = s "character(len=*), parameter :: v = ""Hello  World"" // trim('It''s')".
+Proof. vm_compute. auto. Qed.
